@@ -6,7 +6,7 @@ import tempfile
 ID = 'C13'
 LEVEL = 'exploration'
 QUICK_S = 45
-THOROUGH_S = 600
+THOROUGH_S = 300
 TECHNIQUE = ('runtime monitoring: recording processors on every rule produce an event log with a logical clock and a '
              '"model fully linked and initialised?" probe; an offline checker verifies exactly-once, ordering and replacement')
 RULE = ('models generated as trees by the harness (recursive blocks; single and list containment slots typed by an abstract '
@@ -401,7 +401,7 @@ def one(ctx, i, rep=None):
 
 
 def run(ctx):
-    for i in ctx.indices(4000 if ctx.tier == 'quick' else 20000, 'random'):
+    for i in ctx.indices(4000 if ctx.tier == 'quick' else 10 ** 7, 'random'):
         one(ctx, i)
 
 
